@@ -414,6 +414,40 @@ def generate():
         out.append(f"def recvTruncatedIsClosed : Bool := {'true' if m else 'false'}")
         out.append("")
     run_unit('Gen', unit_core)
+    def unit_unsafe(out):
+        # inventory of `unsafe` in the Unix transport (C18): every site is accounted for in Props/C18.lean / DESIGN.md; a new,
+        # moved or removed site has to be looked at again
+        src = strip_comments(unix)
+        sites = []
+        for m in re.finditer(r'(unsafe\s+)?fn\s+(\w+)\s*(?:<[^>]*>)?\s*\(', src):
+            i, depth = m.end(), 1
+            while depth > 0 and i < len(src):
+                if src[i] == '(':
+                    depth += 1
+                elif src[i] == ')':
+                    depth -= 1
+                i += 1
+            j, k = src.find('{', i), src.find(';', i)
+            if j < 0 or (0 <= k < j):
+                continue
+            body = src[j + 1:find_block(src, j + 1) - 1]
+            n = len(re.findall(r'\bunsafe\b', body)) + (1 if m.group(1) else 0)
+            if n:
+                sites.append((m.group(2), n))
+        total = len(re.findall(r'\bunsafe\b', src))
+        out.append("/-- functions of `platform/unix/mod.rs` that contain `unsafe`, in source order, with the number of occurrences -/")
+        out.append("def unsafeSites : List (String × Nat) := [" + ", ".join(f'("{a}", {b})' for a, b in sites) + "]")
+        out.append(f"def unsafeOutsideFns : Nat := {total - sum(b for _, b in sites)}  -- `unsafe impl Send / Sync`")
+        # pointer-level operations: each kind appears where the bounds theorems expect it and nowhere else
+        def count(rx):
+            return len(re.findall(rx, src))
+        kinds = [("set_len", r'\.set_len\('), ("as_mut_ptr", r'\.as_mut_ptr\('), ("as_ptr", r'\.as_ptr\('), ("copy_nonoverlapping", r'copy_nonoverlapping'),
+                 ("from_raw_parts", r'slice::from_raw_parts'), ("offset/add", r'\.(?:offset|add)\('), ("malloc", r'libc::malloc'), ("free", r'libc::free'),
+                 ("mmap", r'libc::mmap'), ("munmap", r'libc::munmap'), ("write_bytes/memset", r'write_bytes|libc::memset'), ("strncpy", r'libc::strncpy'),
+                 ("zeroed", r'mem::zeroed'), ("transmute", r'transmute'), ("get_unchecked", r'get_unchecked')]
+        out.append("def ptrOps : List (String × Nat) := [" + ", ".join('("%s", %d)' % (k, count(rx)) for k, rx in kinds) + "]")
+    run_unit('GenUnsafe', unit_unsafe)
+
     def unit_own(out):
         # ownership of descriptors (C11 / C03): who closes what, exactly once; nothing is inheritable
         flat = re.sub(r'\s+', '', strip_comments(unix))
